@@ -3,8 +3,9 @@
    1. every type `infer` commits to is well formed (`wf_ty`, the invariant of Ty::unions) when the environment's are;
    2. per-operator soundness lemmas (displays, unary, each family of binary operators, indexing, slicing, builtins);
    3. `infer_expr_sound_ops`: for an expression that satisfies the boolean side condition `sound_ops` (which excludes
-      exactly the three rules of the checker that the model REFUTES: `int * Any`, the slice of a fixed-arity tuple,
-      the slice of a union with a typing.Iterable alternative), the value belongs to the inferred type;
+      exactly the two rules of the checker that the model REFUTES: `int * Any` (code as it was: fixmul = false) and the
+      slice of a union with a typing.Iterable alternative; the slice of a fixed-arity tuple, refuted until the repair
+      0f4399a of expr_slice_basic, is now covered), the value belongs to the inferred type;
    4. the three refutation witnesses. *)
 From Coq Require Import ZArith String Ascii List Bool Lia.
 From SV Require Import Core.Syntax Core.Slice Ty.Spec Ty.Model Ty.Proofs Extracted.TypingC Typing.Model Typing.Proofs.
@@ -252,6 +253,12 @@ Proof.
   - destruct (inter _ _); [|discriminate]. inversion H; subst. exact W.
 Qed.
 
+Lemma slice_basic_wf a x : wf a -> slice_basic a = Some x -> wf x.
+Proof.
+  intros W H. destruct a as [| |[]| | |e|ts|e|k w|?|?|?|?]; simpl in H; try discriminate; inversion H; subst; try exact W.
+  - change (wf (item_ty (TTuple ts))). apply item_ty_wf. exact W.
+Qed.
+
 Lemma expr_index_wf ta ti t : wf ta -> expr_index ta ti = IOk t -> wf t.
 Proof.
   intros W H. unfold expr_index in H.
@@ -327,7 +334,7 @@ Section InferWf.
       destruct (check_opt inf st); simpl in Hi; try discriminate.
       destruct (inf e) as [ta| |] eqn:Ia; simpl in Hi; try discriminate.
       eapply union_simple_wf; [apply IHe; reflexivity | | exact Hi].
-      intros a x Wa Fa. destruct a as [| |[]| | |?|?|?|? ?|?|?|?|?]; simpl in Fa; try discriminate; inversion Fa; subst; exact Wa.
+      intros a x Wa Fa. eapply slice_basic_wf; eassumption.
     - destruct e; try discriminate. destruct kw; try discriminate. destruct st; try discriminate. destruct ds; try discriminate.
       destruct (iall (map inf args)) as [ts| |] eqn:E; try discriminate. simpl in Hi.
       destruct (lookup x sigs) as [s|] eqn:Ls.
@@ -773,10 +780,10 @@ Proof.
 Qed.
 
 (* ---- slicing ---- *)
-Definition is_fixed_tuple (a : ty) : bool := match a with TTuple _ => true | _ => false end.
 Definition is_iter (a : ty) : bool := match a with TIter => true | _ => false end.
-(* expr_slice_basic keeps the arity of (T0, .., Tn) and drops a typing.Iterable alternative (both refuted below) *)
-Definition slice_ok (t : ty) : bool := negb (existsb (fun a => is_fixed_tuple a || is_iter a) (alts t)).
+(* expr_slice_basic has no rule for a typing.Iterable alternative, which typecheck_union_simple then drops (refuted below).
+   Tuple types, fixed-arity or homogeneous, are covered: since the repair 0f4399a they slice to tuple[T0 | .. | Tn-1, ...]. *)
+Definition slice_ok (t : ty) : bool := negb (existsb is_iter (alts t)).
 
 Lemma walk_incl {A} fuel (xs : list A) i stop step x : In x (walk fuel xs i stop step) -> In x xs.
 Proof.
@@ -797,9 +804,9 @@ Lemma slice_sound ta t va lo hi st v :
 Proof.
   intros W Ok D H Hs. eapply union_simple_sound; [exact W | exact D | exact H|].
   intros a Hin Ba Wa Da.
-  assert (Na : is_fixed_tuple a || is_iter a = false).
-  { unfold slice_ok in Ok. apply negb_true_iff in Ok. destruct (is_fixed_tuple a || is_iter a) eqn:X; [|reflexivity].
-    assert (Y : existsb (fun a => is_fixed_tuple a || is_iter a) (alts ta) = true) by (apply existsb_exists; exists a; auto).
+  assert (Na : is_iter a = false).
+  { unfold slice_ok in Ok. apply negb_true_iff in Ok. destruct (is_iter a) eqn:X; [|reflexivity].
+    assert (Y : existsb is_iter (alts ta) = true) by (apply existsb_exists; exists a; auto).
     rewrite Y in Ok. discriminate. }
   destruct va as [| |x|s|l|l|kvs]; try discriminate Hs; simpl in Hs, Da.
   - destruct (slice_spec _ lo hi st); [|discriminate]. inversion Hs; subst.
@@ -810,8 +817,12 @@ Proof.
     rewrite forallb_forall in Fe. apply Fe. apply in_map. eapply slice_spec_incl; eassumption.
   - destruct (slice_spec l lo hi st) as [l'|] eqn:E; [|discriminate]. inversion Hs; subst.
     destruct (den_tuple _ _ Da) as [->|[->|[[ts [-> Fe]]|[[e [-> Fe]]|[ts ->]]]]]; try discriminate Ba; try discriminate Na.
-    exists (TTupleOf e). split; [reflexivity|]. simpl. rewrite forallb_map. apply forallb_forall. intros w Hw.
-    rewrite forallb_forall in Fe. apply Fe. apply in_map. eapply slice_spec_incl; eassumption.
+    + (* fixed arity (T0, .., Tn-1): every element of the slice is an element of the tuple, hence in T0 | .. | Tn-1 *)
+      exists (TTupleOf (us ts)). split; [reflexivity|]. simpl. rewrite forallb_map. apply forallb_forall. intros w Hw.
+      assert (Hwl : In w l) by (eapply slice_spec_incl; eassumption).
+      destruct (forall2b_in _ _ (abs w) Fe (in_map abs _ _ Hwl)) as [t0 [Ht D0]]. eapply us_in; eassumption.
+    + exists (TTupleOf e). split; [reflexivity|]. simpl. rewrite forallb_map. apply forallb_forall. intros w Hw.
+      rewrite forallb_forall in Fe. apply Fe. apply in_map. eapply slice_spec_incl; eassumption.
 Qed.
 
 (* ---- builtins ---- *)
@@ -880,7 +891,7 @@ Section SoundOps.
 
   (* the expressions of the pure semantics, minus the rules of the checker that the model refutes:
        a * b   where a has an `int` alternative and b is Any        (unless the repaired rule is used)
-       a[i:j]  where a has a fixed-arity tuple alternative or a typing.Iterable alternative
+       a[i:j]  where a has a typing.Iterable alternative
      and a call must be a call of a builtin (the name is not a def of the module) *)
   Fixpoint sound_ops (e : expr) : bool :=
     match e with
@@ -1088,7 +1099,8 @@ Section SoundOps.
 End SoundOps.
 
 (* ------------------------------------------------------------------------------------------------ *)
-(* 4. the three rules excluded by `sound_ops` are refuted by the faithful model (fixmul = false) *)
+(* 4. the two rules excluded by `sound_ops` are refuted by the faithful model (fixmul = false); the third rule that used to
+      be refuted (the slice of a fixed-arity tuple) was repaired in the code by 0f4399a and is now sound in the model *)
 Definition refutes (types : tmap) (rho : list (string * pv)) (e : expr) (t : ty) (v : pv) : Prop :=
   env_wf types /\ env_ok types rho /\ infer false [] types e = IOk t /\ peval rho e = Some v /\ denote t (abs v) = false.
 
@@ -1107,14 +1119,29 @@ Proof.
   repeat split; try assumption; vm_compute; reflexivity.
 Qed.
 
-(* t[0:1] with t: (int, str) keeps the type (int, str); t = (1, "a") gives (1,) *)
-Theorem refuted_tuple_slice :
-  refutes [("t", IOk (TTuple [tint; tstr]))] [("t", PTuple [PInt 1; PStr "a"])]
-          (ESlice (EVar "t") (Some (EInt 0)) (Some (EInt 1)) None) (TTuple [tint; tstr]) (PTuple [PInt 1]).
+(* t[0:1] with t: (int, str): before the repair 0f4399a the slice kept the type (int, str) while t = (1, "a") gives (1,)
+   (the former refutation `refuted_tuple_slice`); the repaired rule types it tuple[int | str, ...], which holds (1,) -
+   and the old type does not *)
+Theorem tuple_slice_sound_example :
+  env_wf [("t", IOk (TTuple [tint; tstr]))] /\ env_ok [("t", IOk (TTuple [tint; tstr]))] [("t", PTuple [PInt 1; PStr "a"])] /\
+  infer false [] [("t", IOk (TTuple [tint; tstr]))] (ESlice (EVar "t") (Some (EInt 0)) (Some (EInt 1)) None)
+    = IOk (TTupleOf (TUnion [tint; tstr])) /\
+  peval [("t", PTuple [PInt 1; PStr "a"])] (ESlice (EVar "t") (Some (EInt 0)) (Some (EInt 1)) None) = Some (PTuple [PInt 1]) /\
+  denote (TTupleOf (TUnion [tint; tstr])) (abs (PTuple [PInt 1])) = true /\
+  denote (TTuple [tint; tstr]) (abs (PTuple [PInt 1])) = false.
 Proof.
   destruct (single_env "t" (TTuple [tint; tstr]) (PTuple [PInt 1; PStr "a"]) eq_refl eq_refl) as [A B].
   repeat split; try assumption; vm_compute; reflexivity.
 Qed.
+
+(* the slice rule on the tuple types themselves, for all element types: a fixed-arity tuple type slices to the homogeneous
+   tuple type of the union of its element types (the empty tuple type to tuple[typing.Never, ...]), a homogeneous one to itself *)
+Lemma slice_basic_tuple ts : slice_basic (TTuple ts) = Some (TTupleOf (us ts)).
+Proof. reflexivity. Qed.
+Lemma slice_basic_tuple_of e : slice_basic (TTupleOf e) = Some (TTupleOf e).
+Proof. reflexivity. Qed.
+Lemma slice_basic_empty_tuple : slice_basic (TTuple []) = Some (TTupleOf TNever).
+Proof. vm_compute. reflexivity. Qed.
 
 (* x[0:1] with x: str | typing.Iterable is typed str (the Iterable alternative has no slice rule and is dropped by
    typecheck_union_simple); x = [1, 2] gives [1] *)
@@ -1126,9 +1153,9 @@ Proof.
   repeat split; try assumption; vm_compute; reflexivity.
 Qed.
 
-(* the side condition rejects exactly these three witnesses *)
+(* the side condition rejects exactly the two remaining witnesses and ACCEPTS the former tuple-slice witness *)
 Lemma sound_ops_rejects_witnesses :
   sound_ops false [] [("s", IOk TAny)] (EBin BMul (EInt 3) (EVar "s")) = false /\
-  sound_ops false [] [("t", IOk (TTuple [tint; tstr]))] (ESlice (EVar "t") (Some (EInt 0)) (Some (EInt 1)) None) = false /\
+  sound_ops false [] [("t", IOk (TTuple [tint; tstr]))] (ESlice (EVar "t") (Some (EInt 0)) (Some (EInt 1)) None) = true /\
   sound_ops false [] [("x", IOk (TUnion [tstr; TIter]))] (ESlice (EVar "x") (Some (EInt 0)) (Some (EInt 1)) None) = false.
 Proof. repeat split; vm_compute; reflexivity. Qed.
